@@ -25,11 +25,11 @@ ASSUMPTIONS = [
     "virtual clock: asyncio timers fire in deadline order exactly as on a real clock; wall time is only a watchdog",
     "one caller at a time (concurrency is C06)",
 ]
-MUST = ["stale_answer_while_next_request_in_flight", "requests_around_transaction_id_wrap", "stale_fragment_while_idle", "auto_detected_object_silent", "public_entry_points", "truncated_answer", "stale_datagram_while_idle", "retry_branch", "max_retries_branch", "fragment_rearm", "immediate_retry_invalid", "tcp_connect_error",
+MUST = ["silent_request_after_failed_connections", "stale_answer_while_next_request_in_flight", "requests_around_transaction_id_wrap", "stale_fragment_while_idle", "auto_detected_object_silent", "public_entry_points", "truncated_answer", "stale_datagram_while_idle", "retry_branch", "max_retries_branch", "fragment_rearm", "immediate_retry_invalid", "tcp_connect_error",
         "connect_hang_bounded", "silent_exact", "success", "rejected"]
 EXHAUSTIVE = {"quick": True, "thorough": True}
 
-ALPHA = ["drop", "now", "intime", "late", "garbage", "short", "badsum", "exc", "exc9", "frag2", "frag1", "dup",
+ALPHA = ["drop", "now", "intime", "late", "garbage", "short", "badsum", "baddup", "exc", "exc9", "frag2", "frag1", "dup",
          "close", "closelate", "senderr", "reset", "unreachlate"]
 SYMS = {"reset": ("reset", 0.0), "unreachlate": None}     # resolved per T in expand()
 CONNECT = ["ok", "refused", "unreach", "hang"]
@@ -60,12 +60,13 @@ def scenario(transport, framing, ka, T, R, script, connect=(), nreq=1, family=No
     return sc
 
 
-def scenario_then_silent(transport, framing, ka, T, R, script, gap=0.0):
-    """request 1 under `script`, then (after `gap`) request 2 against a silent peer (scripts keyed by register)."""
+def scenario_then_silent(transport, framing, ka, T, R, script, gap=0.0, connect=()):
+    """request 1 under `script` (TCP: after the connection outcomes `connect`), then (after `gap`) request 2 against a silent peer
+    (scripts keyed by register)."""
     steps = [["read", 100, 2]] + ([["sleep", gap]] if gap else []) + [["read", 101, 2]]
     return {"transport": transport, "framing": framing, "keep_alive": ka, "T": T, "R": R,
-            "by_reg": {100: [expand(s, T) for s in script], 101: []}, "after": "drop", "fullscript": list(script) + [f"gap={gap}"],
-            "then_silent": True, "send_faults": {}, "connect": [],
+            "by_reg": {100: [expand(s, T) for s in script], 101: []}, "after": "drop", "fullscript": list(script) + [f"gap={gap}"] + [f"connect={list(connect)}"] * bool(connect),
+            "then_silent": True, "send_faults": {}, "connect": list(connect),
             "tasks": [{"start": 0.0, "steps": steps}]}
 
 
@@ -151,7 +152,7 @@ def check_run(sc, run, part: Part = None):
             len(run.calls) == 1 and not sc.get("send_faults")
         if sc.get("then_silent"):
             # (a stale datagram delivered while request 2 is in flight counts as its - corrupted - answer: not silent then)
-            silent = rec["step"][0] == "read" and rec["step"][1] == 101 and not deliveries
+            silent = rec["step"][0] == "read" and rec["step"][1] == 101 and not deliveries and all(e[3] == "ok" for e in conns)
         if silent:
             want = [round(rec["t0"] + k * T, 9) for k in range(R + 1)]
             got = [e[0] for e in txs]
@@ -280,6 +281,13 @@ def run_shard(spec):
                     # request 2 starts 0.4 T after request 1 ended: a timer left armed by request 1 would now fire inside it
                     run_case(scenario_then_silent(spec["transport"], spec["framing"], spec["ka"], spec["T"], R, list(script),
                                                   gap=0.4 * spec["T"]), part)
+        if spec["transport"] == "tcp":
+            # request 1 never gets a connection (every attempt of its budget fails, or all but the last), request 2 connects and meets silence
+            for outcome in ("refused", "unreach", "timeout"):
+                for nfail in (R + 1, R, 1):
+                    for script in (["now"], ["drop", "now"]):
+                        run_case(scenario_then_silent("tcp", "tcp", spec["ka"], spec["T"], R, script, connect=[outcome] * nfail), part)
+                        part.count("silent_request_after_failed_connections")
         for D in (0.0, 0.5, 1.0, 2.5):
             for hops in range(0, 8):        # arrival phase of the stale datagram relative to the caller's wake-up
                 run_case(scenario_idle_garbage(spec["transport"], spec["framing"], spec["ka"], spec["T"], R, D * spec["T"], hops), part)
